@@ -274,6 +274,17 @@ func streamSameBlock(name string, after func(e *Exec, obs *TxObs, _, _ map[strin
 	}
 	s.Actions = append(s.Actions, core...)
 	s.Actions = append(s.Actions, pairLetters(core...)...)
+	// operations the chain must refuse (each rule of the agreement at its boundary)
+	s.Actions = append(s.Actions,
+		op("create(A->A,600nund@10)", model.Msg{Kind: model.StrCreate, From: "A", To: "A", Den: mc.Nund, Amt: "600", Rate: 10}),
+		op("create(A->R2,0nund@1)", model.Msg{Kind: model.StrCreate, From: "A", To: "R2", Den: mc.Nund, Amt: "0", Rate: 1}),
+		op("create(A->R2,600nund@0)", model.Msg{Kind: model.StrCreate, From: "A", To: "R2", Den: mc.Nund, Amt: "600", Rate: 0}),
+		op("create(A->R2,119nund@2:59s)", model.Msg{Kind: model.StrCreate, From: "A", To: "R2", Den: mc.Nund, Amt: "119", Rate: 2}),
+		op("create(A->R2,120nund@2:60s)", model.Msg{Kind: model.StrCreate, From: "A", To: "R2", Den: mc.Nund, Amt: "120", Rate: 2}),
+		op("topup(A->R1,5tok)", model.Msg{Kind: model.StrTopUp, From: "A", To: "R1", Den: mc.Tok, Amt: "5"}),
+		op("topup(A->R1,0nund)", model.Msg{Kind: model.StrTopUp, From: "A", To: "R1", Den: mc.Nund, Amt: "0"}),
+		op("update(A->R1,@0)", model.Msg{Kind: model.StrUpdate, From: "A", To: "R1", Rate: 0}),
+	)
 	s.Actions = append(s.Actions, govOnce("gov(fee=0.5)", model.StrParams, "0.500000000000000000"))
 	s.Actions = append(s.Actions, timeSteps(400, 700*time.Millisecond, 30*time.Second, 61*time.Second)...)
 	return s
